@@ -41,6 +41,9 @@ pub struct Step<'a> {
     pub commit_post: &'a str,
     /// every conversion call made DURING the operation: (engine kind, composition asked about, all alternatives)
     pub conv: &'a [(u8, String, Vec<Vec<Interval>>)],
+    /// C18: what every alternative the engine offered for `display_pre` reads (index 0 = the default one; the one
+    /// shown is `nth % len`); empty if the getter panicked
+    pub alts_pre: &'a [String],
 }
 
 impl Step<'_> {
